@@ -57,7 +57,7 @@ def main():
         'checks': checks,
         'notes': ('see DESIGN.md (section B = as built); known findings and repaired defects in known_findings.json; baseline ledger of discharged obligations in '
                   'baseline_obligations.json; seeded property-breaking changes and what catches them in seeded/ and at the end of DESIGN.md; no hooks in /repo '
-                  '(hooks.source_commits is empty): the unguarded commits in /repo are the 18 defect repairs whose messages start with "fix:" (listed in DESIGN.md B.4)'),
+                  '(hooks.source_commits is empty): the unguarded commits in /repo are the 19 defect repairs whose messages start with "fix:" (listed in DESIGN.md B.4)'),
         'not_applicable': sorted(na, key=lambda x: x['property_id']),
     }
     json.dump(m, open(os.path.join(ROOT, 'MANIFEST.json'), 'w'), indent=1)
